@@ -92,6 +92,11 @@ def observed_order(root: str, listing):
     return out
 
 
+def coq_root(root: str) -> str:
+    """components of the scanned path as PurePosixPath compares them (str(path).split('/'))"""
+    return H.coq_list(H.coq_text(p) for p in str(Path(root)).split("/"))
+
+
 def coq_mt(r):
     return f"({H.z(r[0])}, {H.z(r[1])})"
 
@@ -370,7 +375,7 @@ class Prop:
             if observed_order(root, desc["tree"]) != seen:
                 raise RuntimeError("environment: listing order changed during the scan")
             if tree is None:
-                return Case(desc=desc, coq_input=f"(CLoad {H.coq_bool(sort)} {H.coq_list(coq_fsn(e) for e in seen)})",
+                return Case(desc=desc, coq_input=f"(CLoad {H.coq_bool(sort)} {coq_root(root)} {H.coq_list(coq_fsn(e) for e in seen)})",
                             impl_obs=[-1], oracle_fail="load-raises: " + load_err, nontrivial=True,
                             key=H.digest([sort, desc["tree"]]), stats=dict(kind="load", sort=sort, raised=True))
             o_tree = obs_tree(tree)
@@ -420,7 +425,7 @@ class Prop:
         finally:
             shutil.rmtree(base, ignore_errors=True)
         model_listing = desc["tree"] if sort else seen
-        coq = f"(CLoad {H.coq_bool(sort)} {H.coq_list(coq_fsn(e) for e in model_listing)})"
+        coq = f"(CLoad {H.coq_bool(sort)} {coq_root(root)} {H.coq_list(coq_fsn(e) for e in model_listing)})"
         fsz = [len(f) for f in folders(desc["tree"])]
         mixed = any(len({e[0] for e in f if e[0] != "o"}) == 2 for f in folders(desc["tree"]))
         return Case(desc=desc, coq_input=coq, impl_obs=obs, oracle_fail=fail,
